@@ -125,7 +125,8 @@ fn materialise(c: &Case) -> Result<Mat, String> {
         let mut order: Vec<usize> = (0..recs.len()).collect();
         order.sort_by_key(|i| (sk.wrapping_mul(*i as u16 + 1).wrapping_add(sk >> 3), *i));
         let recs2: Vec<Vec<u8>> = order.iter().map(|i| if (ob >> (i % 8)) & 1 == 1 { model::revcomp(&recs[*i]) } else { recs[*i].clone() }).collect();
-        samples.push((format!("smp{j}"), recs2));
+        // names deliberately not in sorted order (the output must follow input order, not name order)
+        samples.push((format!("{}{j}", ["m", "c", "x", "a", "t", "g", "p", "e", "z", "k"][j % 10]), recs2));
     }
     if !gen::words_consistent(&items, k, true) {
         return Err("split k-mers not unique after substitution".into());
